@@ -63,7 +63,8 @@ finally:
 out = os.path.join(ROOT, "seeded", name)
 os.makedirs(out, exist_ok=True)
 for f in os.listdir(mdir):
-    shutil.copy(os.path.join(mdir, f), out)
+    if os.path.abspath(mdir) != os.path.abspath(out):
+        shutil.copy(os.path.join(mdir, f), out)
 meta = {}
 try:
     meta = json.load(open(os.path.join(mdir, "meta.json")))
